@@ -100,7 +100,7 @@ Lemma extract_op_spec o t t' nrs : wf_count t = true -> op_pages o t = Some nrs 
   ids_of t' = pick_ids (ids_of t) nrs /\
   pages_of t' = map (fun k => xview (nth (Z.to_nat (k - 1)) (rpages t) dflt)) nrs /\
   (Forall xsafe (rpages t) ->
-     pages_of t' = map (fun k => nth (Z.to_nat (k - 1)) (pages_of t) vdflt) nrs) /\
+     npages_of t' = map (fun k => norm_view (nth (Z.to_nat (k - 1)) (pages_of t) vdflt)) nrs) /\
   wf_count t' = true.
 Proof.
   intros Hwf Hp Ha.
@@ -108,7 +108,7 @@ Proof.
   { destruct o; simpl in Hp; try discriminate; inversion Hp; subst; exact Ha. }
   destruct (extract_spec t nrs t' Hwf He) as [H1 [H2 [H3 [H4 [H5 _]]]]].
   repeat split; try assumption.
-  intros Hs. rewrite H3. apply map_ext_in. intros k Hk.
+  intros Hs. unfold npages_of. rewrite H3, map_map. apply map_ext_in. intros k Hk.
   pose proof (in_range_Forall _ _ H2) as Hr. rewrite Forall_forall in Hr. specialize (Hr k Hk).
   assert (Hlt : (Z.to_nat (k - 1) < length (rpages t))%nat).
   { pose proof (wf_count_len t Hwf no_attrs) as Hl. unfold lenZ, rpages in *. lia. }
